@@ -189,6 +189,81 @@ func main() {
 			})
 		})
 
+		// One Extension value serves many upgrades (Reset between them), and its owner may
+		// change Parameters between two upgrades: the answer to an offer must be the one a fresh
+		// Extension with the current Parameters gives, whatever was negotiated before.
+		r.Part("E1c-reused-extension-history", func(t *explore.T) {
+			pick := func(n, k int) []int {
+				var out []int
+				for i := 0; i < k; i++ {
+					out = append(out, (i*n)/k+(i*7)%((n/k)+1)%(n/k))
+				}
+				return out
+			}
+			cfgSub, offSub := pick(len(cfgs), 12), pick(len(offers), 8)
+			type hist struct{ cfg, off P }
+			var hists []hist
+			for _, ci := range cfgSub {
+				for _, oi := range offSub {
+					hists = append(hists, hist{cfgs[ci], offers[oi]})
+				}
+			}
+			type cur struct{ cfg, off P }
+			var curs []cur
+			for _, cfg := range cfgs {
+				for _, oi := range offSub {
+					curs = append(curs, cur{cfg, offers[oi]})
+				}
+			}
+			for _, ci := range cfgSub {
+				for _, off := range offers {
+					curs = append(curs, cur{cfgs[ci], off})
+				}
+			}
+			bogus := httphead.Option{Name: []byte("permessage-deflate")}
+			bogus.Parameters.Set([]byte("bogus"), nil)
+			t.Par(len(hists), func(hi int) {
+				h := hists[hi]
+				for _, failFirst := range []bool{false, true} {
+					t.DoN(int64(len(curs)), func() string {
+						return fmt.Sprintf("first upgrade config%s offer%s (then a refused offer: %v), Reset, then every config x offer", ps(h.cfg), ps(h.off), failFirst)
+					}, func() *explore.Fail {
+						for _, c := range curs {
+							e := &wsflate.Extension{Parameters: h.cfg}
+							if _, err := e.Negotiate(offerOption(h.off)); err != nil {
+								return explore.Failf("valid-offer-error", "%v", err)
+							}
+							if failFirst {
+								e.Reset()
+								e.Negotiate(bogus)
+							}
+							e.Reset()
+							e.Parameters = c.cfg
+							got, err := e.Negotiate(offerOption(c.off))
+							f := &wsflate.Extension{Parameters: c.cfg}
+							want, err2 := f.Negotiate(offerOption(c.off))
+							if (err == nil) != (err2 == nil) || optStr(got) != optStr(want) {
+								return explore.Failf("answer-depends-on-earlier-upgrade", "second upgrade config%s offer%s: reused extension answers %q (err=%v), fresh one %q (err=%v)", ps(c.cfg), ps(c.off), optStr(got), err, optStr(want), err2)
+							}
+							gp, ga := e.Accepted()
+							fp, fa := f.Accepted()
+							if gp != fp || ga != fa {
+								return explore.Failf("Accepted-depends-on-earlier-upgrade", "second upgrade config%s offer%s", ps(c.cfg), ps(c.off))
+							}
+							if got.Size() > 0 {
+								if why := legal(c.off, got); why != "" {
+									return explore.Failf("illegal-answer-after-reuse:"+why, "answer %q", optStr(got))
+								}
+							}
+						}
+						return nil
+					})
+				}
+			})
+			t.Outcome("same-as-fresh")
+			t.Note(fmt.Sprintf("%d first upgrades x {plain, followed by a refused offer} x %d (config, offer) second upgrades on the same Extension after Reset with Parameters reassigned", len(hists), len(curs)))
+		})
+
 		r.Part("E1b-through-Upgrader", func(t *explore.T) {
 			stride := t.Pick(7, 1)
 			t.Par(len(cfgs), func(ci int) {
